@@ -102,6 +102,18 @@ def handle (s : Sexp) : D String :=
       let ps := (partsOf P).map fun p => s!"({p.root} {p.name} ({" ".intercalate (p.range.map toString)}))"
       let fs := (futureHeads P).map fun (a, n) => s!"({Sexp.quote a} {n})"
       pure ("((" ++ " ".intercalate ps ++ ") (" ++ " ".intercalate fs ++ "))")
+  | .list [.atom "head", t, dmax] => do
+      -- head formula of a `&tel` head atom: rep, and for d = 0..dmax the shifted formula and its clauses
+      let t ← decTTerm t
+      let dmax ← decNat dmax
+      match hCreateFormula t with
+      | .error e => pure ("ERR " ++ e.tag)
+      | .ok f =>
+        let per := (List.range (dmax + 1)).map fun d =>
+          let sf := shiftF d f
+          "(" ++ Sexp.quote sf.rep ++ " (" ++ " ".intercalate ((unfoldF sf).map fun c =>
+            "(" ++ " ".intercalate (c.map fun x => Sexp.quote x.rep) ++ ")") ++ "))"
+        pure ("(" ++ Sexp.quote f.rep ++ " " ++ " ".intercalate per ++ ")")
   | s => .error s!"unknown command: {s.toStr}"
 
 partial def loop (inp : IO.FS.Stream) (out : IO.FS.Stream) : IO Unit := do
